@@ -74,7 +74,7 @@ def is_verdict_call(n):
     return any(short.startswith(p) or p in short for p in VERDICT_PREFIXES)
 
 
-def fingerprint(a, f, func):
+def fingerprint(a, f, func, cond=False):
     """(kind, detail...) or None for facts that carry no check (stream state, loop counters)"""
     T = a.T
     n = T.node(f)
@@ -84,6 +84,12 @@ def fingerprint(a, f, func):
         f = n[2]
         n = T.node(f)
     pre = 'all:' if tags else ''
+    if n[0] == 'if':
+        c = fingerprint(a, n[1], func, cond=True)
+        F = fingerprint(a, n[2], func)
+        if c is None or F is None:
+            return None
+        return (pre + 'if', c, F)
     if n[0] in ('truthy', 'falsy'):
         inner = T.node(n[1])
         if inner[0] in ('mc', 'callr'):
@@ -103,9 +109,16 @@ def fingerprint(a, f, func):
         return (pre + n[0], inner[0], tuple(sorted(leafnames(a, n[1], func))))
     if n[0] == 'rel':
         op, x, y = n[1], n[2], n[3]
+        # iterator loops of clean-up code carry no check
+        if T.contains(f, lambda nn: nn[0] == 'mc' and nn[1].split('::')[-1] in ('begin', 'end', 'rbegin', 'rend')):
+            return None
         lx, ly = leafnames(a, x, func), leafnames(a, y, func)
         # loop-counter relations carry no check
         if T.op(x) == 'iv' or T.op(y) == 'iv':
+            if cond:
+                other = y if T.op(x) == 'iv' else x
+                return ('ivrel', op if T.op(x) == 'iv' else {'<': '>', '<=': '>=', '==': '==', '!=': '!='}.get(op, op),
+                        tuple(sorted(leafnames(a, other, func))))
             return None
         if op in ('==', '!='):
             kx, ky = shape(a, x), shape(a, y)
@@ -151,7 +164,7 @@ def bool_variants(func):
     for p in func.get('params', []):
         if p['t'] in ('bool', 'const bool'):
             for v in (True, False):
-                out.append(({('v', p['id'], p['n']): v}, '%s=%s' % (p['n'], 'T' if v else 'F')))
+                out.append(({('v', p['id'], p['n']): v}, 'b%d=%s' % (func['params'].index(p), 'T' if v else 'F')))
     return out
 
 
@@ -173,7 +186,7 @@ def inventory(ctx, func):
         for h in a.loops_on_accept_path():
             for f in a.iteration_facts(h):
                 fp = fingerprint(a, f, func)
-                if fp is not None:
+                if fp is not None and not fp[0].startswith('all:'):
                     inv.setdefault(('@loop',) + fp, []).append(label)
         if not assume:
             for nid, ev in a.all_events('hash'):
@@ -186,3 +199,45 @@ def inventory(ctx, func):
 
 def fp_str(fp):
     return repr(fp)
+
+
+def strip_abs(sh):
+    while isinstance(sh, str) and sh.startswith('abs(') and sh.endswith(')'):
+        sh = sh[4:-1]
+    return sh
+
+
+def covers(cur, ref):
+    """does the current fingerprint cur establish at least what the reference fingerprint ref did?"""
+    if cur == ref:
+        return True
+    if len(cur) < 1 or len(ref) < 1:
+        return False
+    if cur[0] == '@loop' or ref[0] == '@loop':
+        if cur[0] != ref[0]:
+            return False
+        return covers(cur[1:], ref[1:])
+    if cur[0] != ref[0]:
+        return False
+    k = ref[0].split(':')[-1]
+    if k == 'if':
+        return cur[1] == ref[1] and covers(cur[2], ref[2])
+    if k in ('eq', 'ne'):
+        cl = set()
+        for sh, ls in cur[1]:
+            cl |= set(ls)
+        rl = set()
+        for sh, ls in ref[1]:
+            rl |= set(ls)
+        # constants on one side must be preserved (x == 1 is not x == 0)
+        cc = sorted(sh for sh, ls in cur[1] if sh.startswith('int:'))
+        rc = sorted(sh for sh, ls in ref[1] if sh.startswith('int:'))
+        return rl <= cl and cc == rc
+    if k == 'range':
+        return (cur[1] == ref[1] and strip_abs(cur[2]) == strip_abs(ref[2]) and cur[3] == ref[3] and
+                strip_abs(cur[4]) == strip_abs(ref[4]) and cur[5] == ref[5])
+    if k in ('call', 'notcall'):
+        return cur[1] == ref[1] and set(ref[2]) <= set(cur[2])
+    if k == 'invertible':
+        return set(ref[1]) <= set(cur[1]) and set(ref[2]) <= set(cur[2])
+    return False
